@@ -569,8 +569,8 @@ where
     if n < 2 {
         return;
     }
-    let mut cases = vec![];
-    for _ in 0..3 {
+    let mut cases = vec![(0, n - 1)];
+    for _ in 0..2 {
         let s = rng.below(n);
         let mut t = rng.below(n);
         if t == s {
@@ -589,7 +589,7 @@ where
 }
 
 pub fn c15_graph(out: &mut Out, ag: &AG, rng: &mut Rng) {
-    if ag.n == 0 || ag.edges.len() > 10 {
+    if ag.n == 0 || ag.edges.len() > 13 {
         return;
     }
     each_enc!(out, "C15", ag, rng, [graph, stable, matrixd, matrixu, map, csr, list], |g, fwd, inv| {
@@ -900,6 +900,123 @@ pub fn c20_graph(out: &mut Out, ag: &AG, rng: &mut Rng) {
     }
 }
 
+// ------------------------------------------------------------------------------------------ C08
+
+/// Dfs / Bfs / DfsPostOrder from every start, with move_to continuation and reset
+fn c08_walk<G>(g: G, fwd: &[G::NodeId], inv: &std::collections::HashMap<G::NodeId, usize>, f: &mut Fields, rng: &mut Rng, tag: &str)
+where
+    G: IntoNeighbors + Visitable + Copy,
+    G::NodeId: Eq + std::hash::Hash + Copy,
+{
+    let n = fwd.len();
+    let lim = 4 * n + 8;
+    macro_rules! walker { ($W:ident, $name:expr) => {{
+        f.insert(format!("{}{}", $name, tag), run(|| json!((0..n).map(|s| {
+            let mut w = $W::new(g, fwd[s]);
+            let mut seq = vec![];
+            while let Some(x) = w.next(g) { seq.push(inv[&x]); if seq.len() > lim { break; } }
+            // exhausted: next() keeps returning None
+            let again = w.next(g).is_none();
+            // continue from another node without forgetting what was discovered
+            let t = (s + 1 + (s * 7) % n.max(1)) % n;
+            w.move_to(fwd[t]);
+            let mut seq2 = vec![];
+            while let Some(x) = w.next(g) { seq2.push(inv[&x]); if seq2.len() > lim { break; } }
+            // reset: everything forgotten
+            w.reset(g);
+            w.move_to(fwd[t]);
+            let mut seq3 = vec![];
+            while let Some(x) = w.next(g) { seq3.push(inv[&x]); if seq3.len() > lim { break; } }
+            json!({"s": s, "seq": seq, "none_again": again, "t": t, "seq2": seq2, "seq3": seq3})
+        }).collect::<Vec<_>>())));
+    }}}
+    walker!(Dfs, "dfs");
+    walker!(DfsPostOrder, "dpo");
+    // Bfs has no reset/move_to: a fresh walker per start
+    f.insert(format!("bfs{}", tag), run(|| json!((0..n).map(|s| {
+        let mut w = Bfs::new(g, fwd[s]);
+        let mut seq = vec![];
+        while let Some(x) = w.next(g) { seq.push(inv[&x]); if seq.len() > lim { break; } }
+        json!({"s": s, "seq": seq, "none_again": w.next(g).is_none()})
+    }).collect::<Vec<_>>())));
+    // depth_first_search with control scripts
+    let mut cases = vec![];
+    for k in 0..4 {
+        let mut starts: Vec<usize> = (0..n).filter(|_| rng.chance(1, 2)).collect();
+        if starts.is_empty() || k == 0 { starts = (0..n).collect(); }
+        if k % 2 == 1 { rng.shuffle(&mut starts); }
+        // script: (event index -> control), else rule-based pruning on a chosen node
+        let prune_node = if k >= 1 { rng.below(n) as i64 } else { -1 };
+        let prune_on = *rng.pick(&["D", "T"]);
+        let break_at = if k == 3 { rng.below(3 * n + 1) as i64 } else { -1 };
+        let finish_prune = k == 2 && rng.chance(1, 6);
+        cases.push((starts, prune_node, prune_on, break_at, finish_prune));
+    }
+    f.insert(format!("dfsv{}", tag), run(|| json!(cases.iter().map(|(starts, prune_node, prune_on, break_at, finish_prune)| {
+        let mut evs: Vec<Value> = vec![];
+        let res = guard(|| depth_first_search(g, starts.iter().map(|&i| fwd[i]), |e| {
+            let k = evs.len() as i64;
+            let (kind, a, b): (&str, i64, i64) = match e {
+                DfsEvent::Discover(n, t) => ("D", inv[&n] as i64, t.0 as i64),
+                DfsEvent::TreeEdge(u, v) => ("T", inv[&u] as i64, inv[&v] as i64),
+                DfsEvent::BackEdge(u, v) => ("B", inv[&u] as i64, inv[&v] as i64),
+                DfsEvent::CrossForwardEdge(u, v) => ("X", inv[&u] as i64, inv[&v] as i64),
+                DfsEvent::Finish(n, t) => ("F", inv[&n] as i64, t.0 as i64),
+            };
+            let c = if k == *break_at { "B" }
+                else if kind == "F" && *finish_prune && a == *prune_node { "P" }
+                else if kind == *prune_on && ((kind == "D" && a == *prune_node) || (kind == "T" && b == *prune_node)) { "P" }
+                else if (kind == "B" || kind == "X") && b == *prune_node { "P" }   // harmless prune on non-tree edges
+                else { "C" };
+            evs.push(json!([kind, a, b, c]));
+            match c { "B" => Control::Break(k), "P" => Control::Prune, _ => Control::Continue }
+        }));
+        let r = match res { Ok(Control::Break(k)) => json!(["break", k]), Ok(_) => json!(["done"]), Err(()) => json!(["panic"]) };
+        json!({"starts": starts, "evs": evs, "res": r})
+    }).collect::<Vec<_>>())));
+}
+
+fn c08_topo<G>(g: G, inv: &std::collections::HashMap<G::NodeId, usize>, f: &mut Fields, n: usize, tag: &str)
+where
+    G: IntoNodeIdentifiers + IntoNeighborsDirected + Visitable + Copy,
+    G::NodeId: Eq + std::hash::Hash + Copy,
+{
+    f.insert(format!("topo{}", tag), run(|| {
+        let mut t = Topo::new(g);
+        let mut seq = vec![];
+        while let Some(x) = t.next(g) { seq.push(inv[&x]); if seq.len() > 4 * n + 8 { break; } }
+        let again = t.next(g).is_none();
+        t.reset(g);
+        let mut seq2 = vec![];
+        while let Some(x) = t.next(g) { seq2.push(inv[&x]); if seq2.len() > 4 * n + 8 { break; } }
+        json!({"seq": seq, "none_again": again, "seq2": seq2})
+    }));
+}
+
+pub fn c08_graph(out: &mut Out, ag: &AG, rng: &mut Rng) {
+    if ag.n == 0 {
+        return;
+    }
+    let d = ag.directed;
+    let n = ag.n;
+    let r0 = rng.clone();
+    each_enc!(out, "C08", ag, rng, [graph, stable, map, matrixd], |g, fwd, inv| {
+        let mut f = Fields::new();
+        c08_walk(&g, &fwd, &inv, &mut f, &mut r0.clone(), "");
+        if d { c08_topo(&g, &inv, &mut f, n, ""); }
+        // the same walkers through Reversed: they must walk the reversed graph
+        c08_walk(Reversed(&g), &fwd, &inv, &mut f, &mut r0.clone(), "_rev");
+        if d { c08_topo(Reversed(&g), &inv, &mut f, n, "_rev"); }
+        f
+    });
+    each_enc!(out, "C08", ag, rng, [matrixu, csr, list], |g, fwd, inv| {
+        let mut f = Fields::new();
+        c08_walk(&g, &fwd, &inv, &mut f, &mut r0.clone(), "");
+        f
+    });
+    rng.next();
+}
+
 pub fn prop_fn(prop: &str) -> fn(&mut Out, &AG, &mut Rng) {
     match prop {
         "C09" => c09_graph,
@@ -909,6 +1026,7 @@ pub fn prop_fn(prop: &str) -> fn(&mut Out, &AG, &mut Rng) {
         "C16" => c16_graph,
         "C15" => c15_graph,
         "C20" => c20_graph,
+        "C08" => c08_graph,
         _ => panic!("unknown property {}", prop),
     }
 }
@@ -959,6 +1077,12 @@ pub fn sweep(prop: &str, seed: u64, exhaustive_n: usize, random: usize, nmax: us
         for _ in 0..random {
             let ag = random_ag(&mut rng, nmax, directed, wlo, whi, true, true);
             f(out, &ag, &mut rng);
+        }
+        if prop == "C15" {
+            for _ in 0..(if directed { random } else { 5 * random }) {
+                let ag = if directed { layered_flow_ag(&mut rng) } else { blossom_ag(&mut rng) };
+                f(out, &ag, &mut rng);
+            }
         }
         if prop == "C09" || prop == "C12" {
             for k in 0..(random / 10).max(4) {
